@@ -915,3 +915,15 @@ Theorem compact_read_no_panic fuel e t b p : gcread fuel e t b <> Panic p.
 Proof. intros H. pose proof (compact_read_never_panics fuel e t b) as Hn. rewrite H in Hn. exact Hn. Qed.
 Theorem compact_reader_no_panic fuel e t st p : cdec fuel e t st <> Panic p.
 Proof. intros H. pose proof (compact_reader_never_panics fuel e t st) as Hn. rewrite H in Hn. exact Hn. Qed.
+
+(** the compact encoding determines the value: distinct well-typed wire values of a type have
+    distinct encodings, and no encoding is a proper prefix of another (prefix-freeness is what lets
+    fields and elements follow each other without separators) *)
+Theorem compact_encoding_injective e t w1 w2 r1 r2 :
+  wwt e t w1 -> wwt e t w2 -> cenc e t w1 ++ r1 = cenc e t w2 ++ r2 -> w1 = w2 /\ r1 = r2.
+Proof.
+  intros H1 H2 Heq.
+  pose proof (compact_codec_roundtrip e t w1 (wsize w1 + wsize w2) r1 H1 ltac:(lia)) as R1.
+  pose proof (compact_codec_roundtrip e t w2 (wsize w1 + wsize w2) r2 H2 ltac:(lia)) as R2.
+  rewrite Heq in R1. rewrite R1 in R2. injection R2 as -> ->. split; reflexivity.
+Qed.
